@@ -168,7 +168,46 @@ def gen_valid_polygon(rng, R, ox=0, oy=0):
     return ('PG', [close(pts)])
 
 
+def gen_invalid_hole(rng):
+    """a shell of some shape with a hole that is itself an invalid ring (bow-tie, spike, ring run twice, fold-back), placed
+    around / inside / across the shell"""
+    S = rng.choice([8, 10, 12])
+    shells = {'triangle': [(0, 0), (S, 0), (0, S), (0, 0)], 'rect': rect(0, 0, S, S - 2),
+              'diamond': [(S // 2, 0), (S, S // 2), (S // 2, S), (0, S // 2), (S // 2, 0)],
+              'ell': [(0, 0), (S, 0), (S, 3), (3, 3), (3, S), (0, S), (0, 0)],
+              'pentagon': [(0, 0), (S, 0), (S, S // 2), (S // 2, S), (0, S // 2), (0, 0)]}
+    shape = rng.choice(sorted(shells)); shell = shells[shape]
+    if rng.random() < 0.3:
+        shell = shell[::-1]
+    kind = rng.choice(['bowtie', 'bowtie', 'spike', 'double', 'foldback'])
+    place = rng.choice(['around', 'around', 'inside', 'across'])
+    if kind == 'bowtie':
+        if place == 'around':           # the big lobe (crossing point X, U, V) encloses the shell without touching it
+            a = rng.randint(2, 5); m = rng.randint(1, 6); X = (-a, -a); U = (3 * S + a, -a); V = (-a, 3 * S + a)
+            hole = [U, (-a - m, -a), (-a, -a - m), V, U]
+        else:
+            hole = [(1, 1), (3, 3), (3, 1), (1, 3), (1, 1)]
+    elif kind == 'spike':
+        hole = [(1, 1), (3, 1), (3, 2), (5, 2), (3, 2), (3, 3), (1, 3), (1, 1)] if place != 'around' else \
+               [(-2, -2), (S + 2, -2), (S + 2, S + 2), (S + 5, S + 5), (S + 2, S + 2), (-2, S + 2), (-2, -2)]
+    elif kind == 'double':
+        r = rect(1, 1, 3, 3) if place != 'around' else rect(-2, -2, S + 2, S + 2)
+        hole = r + r[1:]
+    else:
+        hole = [(1, 1), (3, 1), (3, 3), (3, 1), (1, 1)] if place != 'around' else [(-2, -2), (S + 2, -2), (S + 2, S + 2), (S + 2, -2), (-2, -2)]
+    if place == 'across':
+        dx = rng.choice([S - 2, -2]); hole = [(x + dx, y) for x, y in hole]
+    if rng.random() < 0.3:
+        hole = hole[::-1]
+    rings = [shell, hole]
+    if rng.random() < 0.2:
+        rings.append(rect(1, 1, 2, 2) if shape != 'diamond' else rect(S // 2, S // 2, S // 2 + 1, S // 2 + 1))
+    return ('PG', rings), 'invalid-hole-%s-%s' % (kind, place)
+
+
 def gen_invalid_polygon(rng, R):
+    if rng.random() < 0.2:
+        return gen_invalid_hole(rng)
     k = rng.randint(0, 13)
     if k == 0:                                  # random (mostly self-crossing) ring
         return ('PG', [rand_ring(rng, rng.randint(3, 7), R)]), 'random-ring'
@@ -437,7 +476,7 @@ def run(ctx):
     judge_all(ctx, drv, cases, shrink=not ctx.replay)
     st = ctx.notes.get('stats', {})
     if not ctx.replay:
-        for need in ['invalid-input', 'valid-input', 'nonfinite', 'collapse-kept', 'collapse-dropped', 'collection', 'table', 'related-multi', 'history', 'history:keep-before-method', 'history:reused-object']:
+        for need in ['invalid-input', 'valid-input', 'nonfinite', 'collapse-kept', 'collapse-dropped', 'collection', 'table', 'related-multi', 'invalid-hole', 'history', 'history:keep-before-method', 'history:reused-object']:
             if st.get(need, 0) == 0:
                 ctx.broken.append(dict(kind='generator', name='distribution ' + need, detail='no case of class %s was generated' % need))
     for c in cases[:4]:
@@ -708,6 +747,7 @@ def judge_case(ctx, c, line, o, pr, mres, tres, st):
         if any(a[0] == 'K' and any(b[0] == 'M' for b in hh[i + 1:]) for i, a in enumerate(hh)): st('history:keep-before-method')
         if 'C' in hh: st('history:reused-object')
     if str(c.get('label', '')).startswith('related-'): st('related-multi')
+    if str(c.get('label', '')).startswith('invalid-hole'): st('invalid-hole')
     f9 = find_known(ctx, 'F9') if (lw and not fin) else None
     f2 = find_known(ctx, 'C17-F2') if (m == 'S' and ring_self_overlap(strip_nonfinite(g))) else None
     if o.startswith('READFAIL'):
